@@ -625,6 +625,7 @@ Definition leaf_text (k : leafk) : str :=
   | LGrpcStatus c m => grpc_status_text c m
   | LGogoStatus c m => grpc_status_text c m
   | LTestError => lit "test error"
+  | LFmtWrapNil m => m
   | LUser _ m _ _ => m
   end.
 
